@@ -112,6 +112,16 @@ def fmtG (prec : Nat) (f : Float) : Str :=
 /-- `strconv.FormatFloat(f, 'G', 10, 64)` (General) -/
 def fmtG10 (f : Float) : Str := fmtG 10 f
 
+/-- the continued-fraction terms of lib.go `continuedFraction(n, 1, limit, 0)` in binary64, each as
+`a - 1` (for 0 < n < 1 a term is ≥ 1) -/
+def cfPredTerms : Nat → Float → List Nat
+  | 0, _ => []
+  | fuel + 1, n =>
+    if n ≤ 0.0 then [] else
+    let inv := 1.0 / n
+    let y := inv.floor
+    (y.toUInt64.toNat - 1) :: cfPredTerms fuel (inv - y)
+
 /-- the NumIn of a float pair (`pf` = ParseFloat(value), `flt` = isNumeric's float) -/
 def numIn (isNum : Bool) (precision : Nat) (pf : Float) (absShort big0 big1 : Str) : NumIn where
   isNum := isNum
@@ -129,5 +139,12 @@ def numIn (isNum : Bool) (precision : Nat) (pf : Float) (absShort big0 big1 : St
     let num := if pct > 0 then pf * goPow 100.0 pct else pf
     fmtSci num.abs d
   general := fmtG10 pf
+  cfPred := cfPredTerms 5000 (pf - (if pf ≥ 0.0 then pf.floor else pf.ceil)).abs
+  fixedFloor := fun pct d =>
+    let num := if pct > 0 then pf * goPow 100.0 pct else pf
+    let num := num.abs.floor
+    let ratio := goPow 10.0 d
+    let num := (num * ratio).round / ratio
+    fmtFixed num.abs d
 
 end XlModel.NumFmt.F64
